@@ -57,9 +57,19 @@ def check(cfg, lines):
         elif crash:
             v("C20", "unhandled exception %s" % crash)
     elif cfg.get("expect_reject"):
-        moved = any(e[0] in ("P", "T") for e in ev)
-        if not crash or moved:
-            v("C20", "invalid configuration (%s) was simulated: crash=%s, item movements=%s" % (cfg["expect_reject"], crash, moved))
+        kind = cfg["expect_reject"]
+        fn = cfg.get("fault_node")
+        touched = [e for e in ev if (e[0] == "P" and ecfg[e[2]]["src"] == fn) or (e[0] == "T" and ecfg[e[2]]["dst"] == fn)
+                   or (e[0] == "G" and e[2] == fn)]
+        if kind in ("cap_zero", "bad_mode", "nonblocking_zero_interarrival"):
+            if "AT-CONSTRUCTION" not in lines:
+                v("C20", "invalid configuration (%s) was accepted by the constructors" % kind)
+        elif kind in ("bad_const_index", "bad_policy"):
+            if not crash or touched:
+                v("C20", "invalid configuration (%s on node %s) was simulated: crash=%s, movements of that node=%d" % (kind, fn, crash, len(touched)))
+        elif kind == "negative_delay":
+            if not crash and touched:
+                v("C20", "negative delay on node %s was silently simulated" % fn)
     if crash:
         return V
     # ---------------- replay item places (C03) and collect per-item times
@@ -75,6 +85,7 @@ def check(cfg, lines):
     cycle = Counter()
     packed = defaultdict(list)
     got_from = {}
+    pulled_via = {}
     t_disc = {}
     pull_log = defaultdict(list)     # node -> [(t, item, edge)] in log order
     push_log = defaultdict(list)
@@ -102,7 +113,7 @@ def check(cfg, lines):
             if place.get(i) != ("node", n) or place.get(pal) != ("node", n):
                 v("C03", "item %d packed into pallet %d by node %d while they are at %s / %s" % (i, pal, n, place.get(i), place.get(pal)))
             place[i] = ("pal", pal)
-            packed[pal].append((i, got_from.get(i)))
+            packed[pal].append((i, pulled_via.get((n, i))))
             if i in held[n]:
                 held[n].remove(i)
         elif k == "P":
@@ -142,6 +153,7 @@ def check(cfg, lines):
                 max_held[dst] = max(max_held[dst], len(held[dst]))
             t_get[i].append((t, ed))
             got_from[i] = ed
+            pulled_via[(dst, i)] = ed
             pull_log[dst].append((t, i, ed))
             got_by[i] = dst
         elif k == "D":
@@ -211,6 +223,55 @@ def check(cfg, lines):
         integral = L[0] + L[2] * (T - L[1])
         if abs(float(d["wsum"]) - integral) > 1e-6:
             v("C18", "edge %d: weighted occupancy sum %s, integral of the true occupancy %s" % (ed, d["wsum"], integral))
+    # ---------------- C10: nothing stranded at the end of the run (every event before T has been processed)
+    for ed, d in edges.items():
+        if "res" not in d:
+            continue
+        putq, putres, getq, getres = [int(x) for x in d["res"].split(",")]
+        dst, src = dst_of_edge[ed], src_of_edge[ed]
+        ready = [x for x in d["ready"].split(",") if x]
+        if putres:
+            v("C10", "edge %d: %d granted space reservation(s) left unused at the end of the run" % (ed, putres))
+        if getres and ncfg[dst]["kind"] in ("sink", "machine"):
+            v("C10", "edge %d: %d granted retrieval reservation(s) of %s %d left unused at the end of the run" % (ed, getres, ncfg[dst]["kind"], dst))
+        if ready and ncfg[dst]["kind"] == "sink":
+            v("C10", "edge %d: item(s) %s available to sink %d were not taken" % (ed, ready, dst))
+        if ready and ncfg[dst]["kind"] == "machine" and ncfg[dst]["insel"][0] == "FA" and len(held[dst]) < ncfg[dst]["wcap"] \
+                and nodes.get(dst, {}).get("tstate") and T > ncfg[dst]["setup"]:
+            v("C10", "edge %d: item(s) %s available to machine %d which holds %d < work_capacity %d items" %
+              (ed, ready, dst, len(held[dst]), ncfg[dst]["wcap"]))
+    # ---------------- C16: combiner recipes, splitter emissions
+    for n, nc in enumerate(ncfg):
+        if nc["kind"] == "combiner":
+            for (tp, pal, ed) in push_log[n]:
+                got = Counter(nc["ins"].index(e2) for (i2, e2) in packed[pal] if e2 in nc["ins"])
+                exp = Counter({k: q for k, q in enumerate(nc["recipe"]) if k >= 1 and q > 0 and k < len(nc["ins"])})
+                foreign = [i2 for (i2, e2) in packed[pal] if e2 not in nc["ins"]]
+                if got != exp and not foreign:
+                    v("C16", "combiner %d pushed pallet %d with items per in-edge %s, recipe %s" % (n, pal, dict(got), dict(exp)))
+                if pulled_via.get((n, pal)) != nc["ins"][0]:
+                    v("C16", "combiner %d pushed pallet %d that did not come from its first in-edge" % (n, pal))
+        if nc["kind"] == "splitter":
+            # per pulled pallet: its items in order, each once, then the pallet (drops allowed when non-blocking)
+            seq = [(i2, "P") for (tp, i2, ed) in push_log[n]]
+            pulled = [i2 for (tp, i2, ed) in pull_log[n]]
+            emitted = Counter(i2 for (i2, _) in seq)
+            for pal in pulled:
+                content = [i2 for (i2, _) in packed[pal]]
+                for x in content + [pal]:
+                    done = emitted[x] + (1 if (n, x) in t_disc else 0)
+                    if done > 1:
+                        v("C16", "splitter %d emitted item %d %d times" % (n, x, done))
+                # order of what was emitted for this pallet
+                pos = {x: k for k, (x, _) in enumerate(seq)}
+                em = [x for x in content + [pal] if x in pos]
+                if [pos[x] for x in em] != sorted(pos[x] for x in em):
+                    v("C16", "splitter %d emitted the content of pallet %d out of order: %s" % (n, pal, em))
+                if pal in pos and any(x not in pos and (n, x) not in t_disc for x in content):
+                    v("C16", "splitter %d emitted pallet %d before all of its items" % (n, pal))
+            extra = [x for x in emitted if x not in pulled and not any(x in [i2 for (i2, _) in packed[p_]] for p_ in pulled)]
+            if extra:
+                v("C16", "splitter %d emitted items %s that it never received" % (n, extra))
     # ---------------- C08 / C09 / C15: per node timing and routing
     for n, nc in enumerate(ncfg):
         kind = nc["kind"]
